@@ -75,13 +75,21 @@ func NewEvmWorld(seed uint64, chainName string, inflation bool) (*EvmWorld, erro
 	}
 	// everybody gets USDT as coin and as ERC-20, XTK as ERC-20
 	for _, u := range []chain.Key{e.Deployer, e.Victim, e.Caller, e.Other} {
-		if _, err := b.Deposit(c.Users[4], e.USDT, sdkmath.NewInt(1_000_000), u.Hex(), u.Acc(), ""); err != nil {
+		coins := int64(1_000_000)
+		if u.Label == e.Deployer.Label {
+			coins = 100_000_000 // the deployer funds every generated program contract
+		}
+		if _, err := b.Deposit(c.Users[4], e.USDT, sdkmath.NewInt(coins), u.Hex(), u.Acc(), ""); err != nil {
 			return nil, err
 		}
 		if _, err := b.Deposit(c.Users[4], e.USDT, sdkmath.NewInt(1_000_000), u.Hex(), u.Acc(), "erc20"); err != nil {
 			return nil, err
 		}
-		if er := c.EthTx(c.Users[5], &e.XTK.ERC20, chain.ERC20Pack("transfer", u.Hex(), big.NewInt(1_000_000)), nil, 0); er.Failed() {
+		xtk := int64(1_000_000)
+		if u.Label == e.Deployer.Label {
+			xtk = 100_000_000
+		}
+		if er := c.EthTx(c.Users[5], &e.XTK.ERC20, chain.ERC20Pack("transfer", u.Hex(), big.NewInt(xtk)), nil, 0); er.Failed() {
 			return nil, fmt.Errorf("xtk transfer: %s", er.VmError())
 		}
 	}
